@@ -80,6 +80,17 @@ thread_local! {
     static IN_TRANSIT: std::cell::Cell<bool> = const { std::cell::Cell::new(false) };
 }
 static CV: Condvar = Condvar::new();
+static TRACE: Mutex<Vec<String>> = Mutex::new(Vec::new());
+
+fn tr(msg: String) {
+    if std::env::var_os("VERIF_GATE_TRACE").is_some() {
+        let mut t = TRACE.lock().unwrap();
+        if t.len() > 400 {
+            t.remove(0);
+        }
+        t.push(format!("{:?} {msg}", std::thread::current().id()));
+    }
+}
 
 pub fn enable(on: bool) {
     let mut g = STATE.lock().unwrap();
@@ -112,6 +123,14 @@ pub struct Snapshot {
     pub orphan_transactions: u64,
 }
 
+/// Internal counters, for harness diagnostics only.
+pub fn debug_state() -> String {
+    let g = STATE.lock().unwrap();
+    let dbs: Vec<String> = g.dbs.iter().map(|d| format!("{:x}:autocommit={}", d, unsafe { sqlite3_get_autocommit(*d as *mut c_void) })).collect();
+    let trace = TRACE.lock().unwrap().join("\n  ");
+    format!("TRACE:\n  {trace}\nwaiting={:?} running={} finished={} lock_waiting={} in_transit={} pre_lock={} open={:?} lock_waiting_dbs={:x?} dbs={:?} notified={}", g.waiting.iter().map(|w| (w.sql.chars().take(30).collect::<String>(), w.granted, w.db)).collect::<Vec<_>>(), g.running, g.finished, g.lock_waiting, g.in_transit, g.pre_lock, g.open, g.lock_waiting_dbs, dbs, NOTIFIED_THREADS.lock().unwrap().len())
+}
+
 pub fn snapshot() -> Snapshot {
     let g = STATE.lock().unwrap();
     let mut v: Vec<String> = g.waiting.iter().filter(|w| !w.granted).map(|w| w.sql.clone()).collect();
@@ -128,6 +147,7 @@ pub fn snapshot() -> Snapshot {
 
 /// Let the waiting statement with this expanded SQL proceed; returns once its step has returned.
 pub fn grant_and_wait(sql: &str) {
+    tr(format!("grant {}", sql.chars().take(24).collect::<String>()));
     let mut g = STATE.lock().unwrap();
     let before = g.finished;
     if let Some(w) = g.waiting.iter_mut().find(|w| !w.granted && w.sql == sql) {
@@ -152,6 +172,7 @@ pub unsafe extern "C" fn __wrap_sqlite3_step(stmt: *mut c_void) -> c_int {
     }
     if !first {
         let r = unsafe { __real_sqlite3_step(stmt) };
+        tr(format!("non-first step r={r}"));
         if r != SQLITE_ROW {
             conclude(stmt as usize);
         }
@@ -196,7 +217,9 @@ pub unsafe extern "C" fn __wrap_sqlite3_step(stmt: *mut c_void) -> c_int {
         }
     }
     GATED.fetch_add(1, Ordering::Relaxed);
+    tr(format!("step begin ticket={ticket}"));
     let r = unsafe { __real_sqlite3_step(stmt) };
+    tr(format!("step end ticket={ticket} r={r}"));
     {
         let mut g = STATE.lock().unwrap();
         let mut was_granted = false;
@@ -242,6 +265,7 @@ thread_local! {
 static NOTIFIED_THREADS: Mutex<Vec<std::thread::ThreadId>> = Mutex::new(Vec::new());
 
 unsafe extern "C" fn on_unlock(args: *mut *mut c_void, n: c_int) {
+    tr(format!("on_unlock n={n}"));
     for i in 0..n as isize {
         let p = unsafe { *args.offset(i) } as *mut Orig;
         if p.is_null() {
@@ -277,7 +301,9 @@ pub unsafe extern "C" fn __wrap_sqlite3_unlock_notify(db: *mut c_void, cb: Optio
         g.lock_waiting_dbs.push(db as usize);
     }
     let boxed = Box::into_raw(Box::new(Orig { cb, arg, thread: std::thread::current().id() }));
+    tr(format!("unlock_notify register db={:x}", db as usize));
     let r = unsafe { __real_sqlite3_unlock_notify(db, Some(on_unlock), boxed as *mut c_void) };
+    tr(format!("unlock_notify registered r={r}"));
     if r != 0 {
         // not registered (e.g. SQLITE_LOCKED: deadlock detected): nothing will call us back
         unsafe { drop(Box::from_raw(boxed)) };
